@@ -64,7 +64,10 @@ ORACLE_PREMISES = [
     'random_* methods: the values np.random draws (randint / permutation after np.random.seed) are inputs of '
     'the model, predicted by the harness with the same seed',
     'np.linalg.inv of a 4x4 affine is modelled by Cramer\'s rule over the rationals (adjugate / determinant); '
-    'np.sqrt enters only squared (spacing ** 2, direction * spacing) so the compared values are rational',
+    'np.sqrt enters only squared (spacing ** 2, direction * spacing, pixel measures ** 2, extent ** 2, plane orientation '
+    'cosines * pixel spacing) so the compared values are rational; DICOM DS formatting (16 characters) of plane '
+    'positions / orientation / pixel measures stays within the comparison tolerance',
+    'np.around at an exact half-way coordinate is not modelled: both sides report such a point as undecided',
     'model comparison of affine entries is |a - b| <= 1e-9 (1 + |b|) in mm: relative to the voxel only down to '
     'micrometre voxels (at nm scale it is the oracle, whose tolerances are relative to the voxel size, that judges); '
     'origins are kept within 2e6 voxels of the frame-of-reference origin so that float64 cancellation in '
@@ -78,10 +81,14 @@ MODELLED = ('volume.py: _prepare_getitem_index, _prepare_pad_width, _permute_aff
             'spatial.py: _transform_affine_matrix(permute_indices), _translate_affine_matrix, '
             'get_closest_patient_orientation, _normalize_patient_orientation; queries: inverse_affine, '
             'map_indices_to_reference, map_reference_to_indices(round_output, check_bounds), '
-            'VolumeToVolumeTransformer.affine, spacing, direction, position, center_position, handedness, '
-            'get_geometry / copy')
+            'VolumeToVolumeTransformer.affine and __call__ (plain; round_output + check_bounds), spacing, direction, '
+            'position, center_position, handedness, get_geometry / copy, get_plane_position(s), get_plane_orientation, '
+            'get_pixel_measures, get_affine(output_convention) (spatial._transform_affine_to_convention: '
+            'permute_reference / flip_reference), spacing_vectors, unit_vectors, physical_extent, voxel_volume, '
+            'physical_volume, nearest_center_indices, center_indices; the type dispatch of _prepare_getitem_index '
+            '(foreign index items -> TypeError, checked in item order)')
 STRATA = ['history', 'history_malformed', 'single', 'closest', 'geom_with_array', 'history_query',
-          'query_op_query', 'scale_entry']
+          'query_op_query', 'scale_entry', 'get_badtype']
 RULE = ('history: 1..8 random operations from the full alphabet on volumes with shape <= 5 per axis, 0-2 '
         'channel dimensions, directions = 48 signed axis permutations, rational rotations (3-4-5, 5-12-13, '
         '1-2-2), integer scaled-orthogonal matrices incl. 45-degree ties, both handednesses, dyadic spacings; '
@@ -101,10 +108,18 @@ RULE = ('history: 1..8 random operations from the full alphabet on volumes with 
         'tan(angle/2) = 1/n, n in 40 .. 10^6, about one or two axes, SLIDE or PATIENT, then queries (direction*spacing, '
         'position, spacing^2, probe of initial voxels + one of inverse / find / center / transformer), 60% continued '
         'by a permuting operation and queries again; 15% of the volumes of all other kinds are drawn from the same '
-        'scales / tilts (12% of the mm ones are tilted)')
-NOT_EXECUTED = ['non-int index items (numpy integers, lists)', 'match_geometry (C09)',
-                'queries get_plane_position(s) / get_plane_orientation / get_pixel_measures / get_affine(convention), '
-                'VolumeToVolumeTransformer.__call__ (only its affine is observed)',
+        'scales / tilts (12% of the mm ones are tilted); the query alphabet has 22 kinds: the 12 above + '
+        'get_plane_position (planes inside and outside 0 <= k < shape[0]), get_plane_positions, get_plane_orientation, '
+        'get_pixel_measures, get_affine(convention: all 48, None, 7 invalid; as str and as list), spacing_vectors / '
+        'unit_vectors, physical_extent / voxel_volume / physical_volume, nearest_center_indices / center_indices, '
+        'VolumeToVolumeTransformer(initial, current)(points) plain and rounded + bounds-checked (one call per point; a '
+        'coordinate exactly half-way between two voxels is reported as undecided by both sides); get_badtype: '
+        '__getitem__ with index items of foreign types (np.int64/int32/uint8, float, list, None, Ellipsis, str, '
+        'ndarray, nested tuple) alone and inside tuples of 1..5 items, before / after out-of-range items, and bool items '
+        '(accepted as ints), on volume and geometry')
+NOT_EXECUTED = ['match_geometry (C09)',
+                'VolumeToVolumeTransformer.__call__ on float inputs and with several points per bounds-checked call',
+                'from_attributes / from_components constructors (C09/C10)',
                 'normalize_mean_std / normalize_min_max / clip / astype (value operations, not spatial)']
 EXHAUSTIVE = {'quick': False, 'thorough': False}
 
@@ -332,6 +347,43 @@ def _py_index(ix):
     return item(ix)
 
 
+def _py_xitem(x):
+    import numpy as np
+    if isinstance(x, dict) and 'bad' in x:
+        n = x.get('v', 0)
+        return {'np64': lambda: np.int64(n), 'np32': lambda: np.int32(n), 'npu8': lambda: np.uint8(abs(n)),
+                'float': lambda: float(n), 'list': lambda: [n], 'none': lambda: None, 'ellipsis': lambda: Ellipsis,
+                'str': lambda: 'a', 'nparr': lambda: np.array([n]), 'listidx': lambda: [n, 0],
+                'tuple': lambda: (n,)}[x['bad']]()
+    if isinstance(x, dict) and 'bool' in x:
+        return bool(x['bool'])
+    return slice(*x['s']) if isinstance(x, dict) else x
+
+
+def _py_xindex(xi):
+    """Index with items of foreign types: a list = a tuple of items, anything else = the index itself."""
+    if isinstance(xi, list):
+        return tuple(_py_xitem(x) for x in xi)
+    return _py_xitem(xi)
+
+
+def _x_is_bad(x):
+    return isinstance(x, dict) and 'bad' in x
+
+
+def _x_plain(x):
+    """bool is an int"""
+    return int(x['bool']) if isinstance(x, dict) and 'bool' in x else x
+
+
+def _coq_xindex(xi):
+    if isinstance(xi, list):
+        return '(XOk [' + '; '.join('None' if _x_is_bad(x) else f'(Some {_coq_item(_x_plain(x))})' for x in xi) + '])'
+    if _x_is_bad(xi):
+        return 'XBadType'
+    return '(XOk [Some ' + _coq_item(_x_plain(xi)) + '])'
+
+
 def _pw(w):
     return w[1]
 
@@ -426,7 +478,16 @@ def _snap_geom(g):
 
 
 # --------------------------------------------------------------------------- queries
-QUERY_NAMES = ['inv', 'geom', 'rt', 'find', 'xf_to', 'xf_from', 'probe', 'sp2', 'dirsp', 'pos', 'center', 'hand']
+QUERY_NAMES = ['inv', 'geom', 'rt', 'find', 'xf_to', 'xf_from', 'probe', 'sp2', 'dirsp', 'pos', 'center', 'hand',
+               'plane_pos', 'planes', 'plane_ori', 'pix_meas', 'aff_conv', 'sp_vec', 'extent2', 'center_idx',
+               'xf_call', 'xf_round']
+# DICOM-facing / convention-facing queries and VolumeToVolumeTransformer.__call__ (added by the extension)
+DICOM_QUERIES = ['plane_pos', 'planes', 'plane_ori', 'pix_meas', 'aff_conv', 'sp_vec', 'extent2', 'center_idx',
+                 'xf_call', 'xf_round']
+CONVENTIONS = [a + b + d for p_ in (('LR', 'PA', 'HF'), ('LR', 'HF', 'PA'), ('PA', 'LR', 'HF'), ('PA', 'HF', 'LR'),
+                                    ('HF', 'LR', 'PA'), ('HF', 'PA', 'LR'))
+               for a in p_[0] for b in p_[1] for d in p_[2]]
+BAD_CONVENTIONS = ['LLP', 'XPL', 'LP', 'LPHF', 'LRH', 'PAH', '']
 # queries that make the object evaluate the inverse of its OWN affine
 INVERSE_QUERIES = ['inv', 'rt', 'find', 'xf_to', 'probe']
 
@@ -476,7 +537,60 @@ def _observe(obj, obj0, q, A0, is_geom):
         return [float(x) for x in obj.center_position]
     if name == 'hand':
         return obj.handedness.value == 'LEFT_HANDED'
+    if name == 'plane_pos':
+        return [catch(lambda: _plane_position_out(obj.get_plane_position(k))) for k in q[1]]
+    if name == 'planes':
+        return [x for pp in obj.get_plane_positions() for x in _plane_position_out(pp)]
+    if name == 'plane_ori':
+        it = obj.get_plane_orientation()[0]
+        cos = [float(x) for x in (it.ImageOrientationPatient if obj.coordinate_system.value == 'PATIENT'
+                                  else it.ImageOrientationSlide)]
+        ps = [float(x) for x in obj.pixel_spacing]       # (between rows = |column 1|, between columns = |column 2|)
+        return [x * ps[1] for x in cos[:3]] + [x * ps[0] for x in cos[3:]]
+    if name == 'pix_meas':
+        it = obj.get_pixel_measures()[0]
+        vals = [float(it.PixelSpacing[0]), float(it.PixelSpacing[1]), float(it.SliceThickness),
+                float(it.SpacingBetweenSlices)]
+        return [x * x for x in vals]
+    if name == 'aff_conv':
+        o = q[1]
+        return _aff_out(obj.get_affine(None if o is None else (o if q[2] else list(o))))
+    if name == 'sp_vec':
+        sv, uv, sp = obj.spacing_vectors(), obj.unit_vectors(), [float(x) for x in obj.spacing]
+        return [float(x) for v_ in sv for x in v_] + [float(x) * sp[d] for d, v_ in enumerate(uv) for x in v_]
+    if name == 'extent2':
+        return ([float(x) ** 2 for x in obj.physical_extent] + [float(obj.voxel_volume) ** 2,
+                                                                 float(obj.physical_volume) ** 2])
+    if name == 'center_idx':
+        near_, cen = obj.nearest_center_indices, obj.center_indices
+        if not all(isinstance(x, int) for x in near_):
+            return 'nearest_center_indices are not ints'
+        return [int(x) for x in near_] + [_num(2 * x) for x in cen]
+    if name == 'xf_call':
+        t = VolumeToVolumeTransformer(obj0, obj)
+        return [float(x) for x in t(np.array(q[1], dtype=np.int64).reshape(-1, 3)).ravel()]
+    if name == 'xf_round':
+        plain = VolumeToVolumeTransformer(obj0, obj)
+        t = VolumeToVolumeTransformer(obj0, obj, round_output=True, check_bounds=True)
+        out = []
+        for p_ in q[1]:
+            pt = np.array([p_], dtype=np.int64)
+            x = plain(pt)[0]
+            if np.any(np.abs(np.abs(x - np.floor(x)) - 0.5) < 1e-6):
+                out.append(None)             # exactly half-way: np.around may go either way in float64
+                continue
+            r = catch(lambda: t(pt))
+            out.append(r if isinstance(r, Err) else [int(v_) for v_ in r[0]])
+        return out
     raise ValueError(name)
+
+
+def _plane_position_out(pp):
+    it = pp[0]
+    if hasattr(it, 'ImagePositionPatient'):
+        return [float(x) for x in it.ImagePositionPatient]
+    return [float(it.XOffsetInSlideCoordinateSystem), float(it.YOffsetInSlideCoordinateSystem),
+            float(it.ZOffsetInSlideCoordinateSystem)]
 
 
 def run_impl(c):
@@ -492,6 +606,16 @@ def run_impl(c):
         op = c['ops'][0]
         r = catch(lambda: _apply_geom_with_array(g, op))
         return r if isinstance(r, Err) else _snap_vol(r)
+    if k == 'get_badtype':
+        v = _mk_volume(c)
+        g = v.get_geometry()
+        before_v, before_g = _snap_vol(v), _snap_geom(g)
+        ix = _py_xindex(c['xindex'])
+        rv = catch(lambda: v[ix])
+        rg = catch(lambda: g[ix])
+        if _snap_vol(v) != before_v or _snap_geom(g) != before_g:
+            return 'RECEIVER-MUTATED'
+        return [rv if isinstance(rv, Err) else _snap_vol(rv), rg if isinstance(rg, Err) else _snap_geom(rg)]
     v = _mk_volume(c)
     g = v.get_geometry()
     v0, g0, A0 = v, g, _np_affine(c['affine'])
@@ -649,8 +773,16 @@ def _coq_pts(pts):
 
 def _coq_query(q):
     n = q[0]
-    if n in ('rt', 'find', 'probe'):
-        return '(' + {'rt': 'QRt', 'find': 'QFind', 'probe': 'QProbe'}[n] + ' ' + _coq_pts(q[1]) + ')'
+    if n in ('rt', 'find', 'probe', 'xf_call', 'xf_round'):
+        return '(' + {'rt': 'QRt', 'find': 'QFind', 'probe': 'QProbe', 'xf_call': 'QXfCall',
+                      'xf_round': 'QXfRound'}[n] + ' ' + _coq_pts(q[1]) + ')'
+    if n == 'plane_pos':
+        return f'(QPlanePos {zl(q[1])})'
+    if n == 'aff_conv':
+        return f"(QAffConv {_coq_orient('LPH' if q[1] is None else q[1])})"
+    if n in ('planes', 'plane_ori', 'pix_meas', 'sp_vec', 'extent2', 'center_idx'):
+        return {'planes': 'QPlanes', 'plane_ori': 'QPlaneOri', 'pix_meas': 'QPixMeas', 'sp_vec': 'QSpVec',
+                'extent2': 'QExtent2', 'center_idx': 'QCenterIdx'}[n]
     return {'inv': 'QInv', 'geom': 'QGeom', 'xf_to': 'QXfTo', 'xf_from': 'QXfFrom', 'sp2': 'QSp2',
             'dirsp': 'QDirSp', 'pos': 'QPos', 'center': 'QCenter', 'hand': 'QHand'}[n]
 
@@ -663,6 +795,8 @@ def coq_term(c):
     if k == 'geom_with_array':
         op = c['ops'][0]
         return f"(run_geom_with_array {_coq_vol(c)} ({_coq_with_array(op)}))"
+    if k == 'get_badtype':
+        return f"(run_get_ext {_coq_vol(c)} {_coq_xindex(c['xindex'])})"
     shapes = _shapes_along(c) if any(op[0] == 'rand_crop' for op in c['ops']) else [None] * len(c['ops'])
     if any(op[0] == 'query' for op in c['ops']):
         evs = '[' + '; '.join(
@@ -1015,6 +1149,17 @@ def _rand_query(rng, shape, shape0, names=None, full=False):
             return ['find', pts_in(n)]
         if name == 'probe':
             return ['probe', pts_in(shape0)]
+        if name == 'plane_pos':
+            return ['plane_pos', [rng.choice([0, n[0] - 1, -1, n[0], rng.randint(-2, n[0] + 1)])
+                                  for _ in range(rng.choice([1, 2, 3]))]]
+        if name == 'aff_conv':
+            r = rng.random()
+            conv = None if r < 0.08 else (rng.choice(BAD_CONVENTIONS) if r < 0.2 else rng.choice(CONVENTIONS))
+            return ['aff_conv', conv, rng.random() < 0.5]
+        if name == 'xf_call':
+            return ['xf_call', pts_in(shape0) if rng.random() < 0.5 else pts_any()]
+        if name == 'xf_round':
+            return ['xf_round', pts_in(shape0) if rng.random() < 0.7 else pts_any()]
         return [name]
     if names is None:
         if full:
@@ -1173,15 +1318,63 @@ def _gen_scale_entry(rng, scale=None, entry=None, tilt=None):
     c['ops'].append(_scale_entry_op(rng, entry, c, c['affine']))
     shape, chans = _track(c)
     c['ops'].append(_rand_query(rng, shape, c['shape'],
-                                names=['dirsp', 'pos', 'sp2', 'probe', rng.choice(['inv', 'find', 'center', 'xf_to'])]))
+                                names=['dirsp', 'pos', 'sp2', 'probe', rng.choice(['inv', 'find', 'center', 'xf_to']),
+                                       rng.choice(DICOM_QUERIES)]))
     if rng.random() < 0.6:
         c2 = dict(c, shape=shape, chans=chans)
         names = [x for x in PERMUTING_ENTRIES if x != 'orient' or c['cs'] == 'PATIENT']
         c['ops'].append(_scale_entry_op(rng, rng.choice(names), c2))
         shape, chans = _track(c)
         c['ops'].append(_rand_query(rng, shape, c['shape'],
-                                    names=['dirsp', 'pos', 'probe', rng.choice(['rt', 'xf_from', 'geom', 'sp2'])]))
+                                    names=['dirsp', 'pos', 'probe', rng.choice(['rt', 'xf_from', 'geom', 'sp2']),
+                                           rng.choice(DICOM_QUERIES)]))
     c['expect'] = [None if op[0] == 'query' else 'ok' for op in c['ops']]
+    return c
+
+
+BAD_ITEM_KINDS = ['np64', 'np64', 'np32', 'npu8', 'float', 'list', 'none', 'ellipsis', 'str', 'nparr', 'tuple']
+
+
+def _gen_get_badtype(rng):
+    """__getitem__ with index items that are neither int nor slice (numpy integers, floats, lists, None,
+    Ellipsis, ...) and with bool items (bool IS an int): alone, inside tuples of 1..5 items, before and after
+    out-of-range items."""
+    c = _gen_volume(rng, small=True)
+    c['kind'] = 'get_badtype'
+    n = c['shape']
+
+    def good(d):
+        r = rng.random()
+        nd = n[min(d, 2)]
+        if r < 0.35:
+            return rng.randrange(-nd, nd)
+        if r < 0.45:
+            return {'bool': rng.random() < 0.5 and nd > 1}
+        return _rand_slice(rng, nd, True)
+
+    def bad():
+        return {'bad': rng.choice(BAD_ITEM_KINDS), 'v': rng.choice([0, 0, 1, -1])}
+    r = rng.random()
+    if r < 0.12:
+        c['xindex'] = rng.choice([bad(), {'bad': 'listidx', 'v': 0}])
+        if c['xindex']['bad'] == 'tuple':
+            c['xindex']['bad'] = 'np64'       # (n,) alone IS a valid tuple index; it is foreign only as an item
+    elif r < 0.2:
+        c['xindex'] = {'bool': rng.random() < 0.5 and n[0] > 1}
+    else:
+        k = rng.choice([1, 2, 2, 3, 3, 3, 4, 5])
+        items = [good(d) for d in range(k)]
+        if rng.random() < 0.85:
+            items[rng.randrange(k)] = bad()
+            if rng.random() < 0.15:
+                items[rng.randrange(k)] = bad()
+        if rng.random() < 0.3:
+            d = rng.randrange(k)
+            if not _x_is_bad(items[d]):
+                nd = n[min(d, 2)]
+                items[d] = rng.choice([nd, -nd - 1, {'s': [nd, None, None]}, {'s': [None, nd + 1, None]},
+                                       {'s': [None, None, 0]}, {'s': [0, 0, None]}])
+        c['xindex'] = items
     return c
 
 
@@ -1208,6 +1401,8 @@ def gen_cases(rng, tier):
         cases.append(c)
     for _ in range(nh // 3):
         cases.append(_gen_history_query(rng))
+    for _ in range(nh // 6):
+        cases.append(_gen_get_badtype(rng))
     if tier == 'quick':
         # every entry point at least once, every query kind as the first query at least once
         firsts = QUERY_NAMES + [None]
@@ -1520,6 +1715,9 @@ def _check_query(q, ans, cur, first, comp, values_ok, is_geom):
     oracle's own location map.  Independent of the model: numpy's inverse of the reported affine."""
     import numpy as np
     name = q[0]
+    if name == 'aff_conv' and q[1] is not None and q[1] not in CONVENTIONS:
+        return (None if isinstance(ans, Err) and ans.kind == 'ValueError'
+                else f'aff_conv: the invalid convention {q[1]!r} was not refused with ValueError')
     if isinstance(ans, Err):
         return f'{name}: raised {ans.kind}'
     A, A0 = _A(cur[1]), _A(first[1])
@@ -1601,7 +1799,87 @@ def _check_query(q, ans, cur, first, comp, values_ok, is_geom):
                 if values_ok and comp[j] == i and not np.array_equal(arr[j].ravel(), a0[tuple(p_)].ravel()):
                     return f'probe: initial voxel {p_} is found at {list(j)} with other values'
         return None
-    if name == 'sp2':
+    if name == 'plane_pos':
+        if len(ans) != len(q[1]):
+            return 'plane_pos: wrong number of answers'
+        for k_, a in zip(q[1], ans):
+            if k_ < 0 or k_ >= ns[0]:
+                if not (isinstance(a, Err) and a.kind == 'ValueError'):
+                    return f'plane_pos: plane {k_} of a volume with {ns[0]} planes was not refused with ValueError'
+                continue
+            want = [float(x) for x in (A @ np.array([k_, 0, 0, 1.0]))[:3]]
+            if isinstance(a, Err) or not near(a, want, ptol):
+                return f'plane_pos: plane {k_} is reported at {a}, voxel ({k_},0,0) lies at {want}'
+        return None
+    if name == 'xf_round':
+        T = np.linalg.inv(A) @ A0
+        fs = first[0]
+        if len(ans) != len(q[1]):
+            return 'xf_round: wrong number of answers'
+        for p_, a in zip(q[1], ans):
+            ref = T @ np.array([p_[0], p_[1], p_[2], 1.0])
+            ref = ref[:3]
+            if a is None or np.any(np.abs(np.abs(ref - np.floor(ref)) - 0.5) < 1e-5):
+                continue
+            r = [int(x) for x in np.rint(ref)]
+            inside = all(0 <= x < n_ for x, n_ in zip(r, ns))
+            if isinstance(a, Err):
+                if a.kind != 'ValueError' or inside:
+                    return f'xf_round: initial index {p_} -> {a.kind}, but it lies at voxel {r} of the object'
+                continue
+            if list(a) != r or not inside:
+                return f'xf_round: initial index {p_} is sent to {a}; the affines give {r} (inside={inside})'
+            if all(0 <= x < n_ for x, n_ in zip(p_, fs)):
+                i = (p_[0] * fs[1] + p_[1]) * fs[2] + p_[2]
+                hit = np.argwhere(comp == i)
+                if len(hit) and [int(x) for x in hit[0]] != list(a):
+                    return (f'xf_round: initial voxel {p_} survives as voxel {hit[0].tolist()} but the transformer '
+                            f'sends it to {a}')
+        return None
+    if name == 'center_idx':
+        want = [(n_ - 1) // 2 for n_ in ns] + [n_ - 1 for n_ in ns]
+        return None if list(ans) == want else f'center_idx: {ans}, the shape gives {want}'
+    if name == 'planes':
+        want = [float(x) for k_ in range(ns[0]) for x in (A @ np.array([k_, 0, 0, 1.0]))[:3]]
+        ok = near(ans, want, ptol)
+    elif name == 'plane_ori':
+        want = [float(x) for x in A[:3, 2]] + [float(x) for x in A[:3, 1]]
+        ok = near(ans, want, 1e-9 * vox)
+    elif name == 'pix_meas':
+        sq = [float((A[:3, d] ** 2).sum()) for d in range(3)]
+        want = [sq[1], sq[2], sq[0], sq[0]]
+        ok = near(ans, want, 0.0)
+    elif name == 'aff_conv':
+        conv = q[1] or 'LPH'
+        M = np.zeros((4, 4))
+        M[3, 3] = 1.0
+        for r_, letter in enumerate(conv):
+            M[r_, 'LRPAHF'.index(letter) // 2] = 1.0 if letter in 'LPH' else -1.0
+        want = _aff_out(M @ A)
+        ok = near(ans, want, ptol)
+    elif name == 'sp_vec':
+        want = [float(A[i, d]) for d in range(3) for i in range(3)] * 2
+        ok = near(ans, want, 1e-9 * vox)
+    elif name == 'extent2':
+        sq = [float((A[:3, d] ** 2).sum()) for d in range(3)]
+        vv = sq[0] * sq[1] * sq[2]
+        want = [ns[d] ** 2 * sq[d] for d in range(3)] + [vv, float(ns[0] * ns[1] * ns[2]) ** 2 * vv]
+        ok = near(ans, want, 0.0)
+    elif name == 'xf_call':
+        T = np.linalg.inv(A) @ A0
+        pts = np.array(q[1], dtype=float).reshape(-1, 3)
+        want = (pts @ T[:3, :3].T + T[:3, 3]).ravel().tolist()
+        ok = close(ans, want, 1e-6)
+        if ok:
+            fs = first[0]
+            got = np.array(ans, dtype=float).reshape(-1, 3)
+            for p_, g_ in zip(q[1], got):
+                if all(0 <= x < n_ for x, n_ in zip(p_, fs)):
+                    hit = np.argwhere(comp == (p_[0] * fs[1] + p_[1]) * fs[2] + p_[2])
+                    if len(hit) and not close(g_, hit[0], 1e-6):
+                        return (f'xf_call: initial voxel {p_} survives as voxel {hit[0].tolist()} but the '
+                                f'transformer sends it to {np.round(g_, 6).tolist()}')
+    elif name == 'sp2':
         want = [float((A[:3, d] ** 2).sum()) for d in range(3)]
         ok = near(ans, want, 0.0)
     elif name == 'dirsp':
@@ -1627,8 +1905,21 @@ def _same_answer(q, a, b):
         return isinstance(a, Err) and isinstance(b, Err) and a.kind == b.kind
     if q[0] == 'probe':
         return [None if x is None else x[0] for x in a] == [None if x is None else x[0] for x in b]
-    if q[0] in ('hand', 'find'):
+    if q[0] in ('hand', 'find', 'center_idx'):
         return a == b
+    if q[0] in ('plane_pos', 'xf_round'):
+        if len(a) != len(b):
+            return False
+        for x, y in zip(a, b):
+            if isinstance(x, Err) or isinstance(y, Err):
+                if not (isinstance(x, Err) and isinstance(y, Err) and x.kind == y.kind):
+                    return False
+            elif x is None or y is None:
+                if x is not y:
+                    return False
+            elif not np.allclose(x, y, rtol=1e-9, atol=1e-9 * max([abs(t) for t in y] + [0.0])):
+                return False
+        return True
     if len(a) != len(b):
         return False
     # the same float64 operations on the same affine: equal up to a relative 1e-9 of the largest entry
@@ -1670,6 +1961,8 @@ def oracle(c, out):
         if [_num(x) for x in out[3]] != [_num(x) for x in c['ops'][0][2]]:
             return 'VolumeGeometry.with_array changed the array'
         return None
+    if k == 'get_badtype':
+        return _check_get_badtype(c, out)
     v0 = _mk_volume(c)
     prev = _snap_vol(v0)
     first = prev
@@ -1749,8 +2042,69 @@ def oracle(c, out):
     return None
 
 
+def _check_get_badtype(c, out):
+    """Independent of the model: the documented rule (int / slice / tuple of them, at most three items,
+    items checked in order) and numpy's own indexing for the accepted (bool) ones."""
+    import numpy as np
+    if out == 'RECEIVER-MUTATED':
+        return 'the receiver was modified'
+    ov, og = out
+    xi, n = c['xindex'], c['shape']
+    items = xi if isinstance(xi, list) else [xi]
+    want = None
+    if not isinstance(xi, list) and _x_is_bad(xi):
+        want = 'TypeError'
+    elif len(items) > 3:
+        want = 'IndexError'
+    else:
+        for d, x in enumerate(items):
+            if _x_is_bad(x):
+                want = 'TypeError'
+            else:
+                x = _x_plain(x)
+                if isinstance(x, dict):
+                    a, b, _ = x['s']
+                    if (a is not None and not -n[d] <= a < n[d]) or (b is not None and not -n[d] - 1 <= b <= n[d]):
+                        want = 'ValueError'
+                elif not -n[d] <= x < n[d]:
+                    want = 'IndexError'
+            if want:
+                break
+    if want:
+        for who, o in (('volume', ov), ('geometry', og)):
+            if not isinstance(o, Err):
+                return f'{who}: index {xi} was accepted; expected {want}'
+            if o.kind != want:
+                return f'{who}: index {xi} raised {o.kind}; the first offending item calls for {want}'
+        return None
+    if isinstance(ov, Err) or isinstance(og, Err):
+        if not (isinstance(ov, Err) and isinstance(og, Err) and ov.kind == og.kind):
+            return f'volume and geometry disagree on index {xi}: {ov if isinstance(ov, Err) else "ok"} / {og if isinstance(og, Err) else "ok"}'
+        # second loop of _prepare_getitem_index: empty selection / zero step
+        sl = [slice(*x['s']) if isinstance(x, dict) else None for x in map(_x_plain, items)]
+        zero = any(s_ is not None and s_.step == 0 for s_ in sl)
+        empty = any(s_ is not None and s_.step != 0 and len(range(*s_.indices(n[d]))) == 0 for d, s_ in enumerate(sl))
+        if not (zero or empty):
+            return f'the valid index {xi} was refused with {ov.kind}'
+        return None
+    v0 = _mk_volume(c)
+    key = []
+    for d, x in enumerate(map(_x_plain, items)):
+        key.append(slice(*x['s']) if isinstance(x, dict) else slice(x, None if x == -1 else x + 1))
+    ref = np.asarray(v0.array)[tuple(key)]
+    if list(ref.shape[:3]) != ov[0] or [_num(x) for x in ref.ravel().tolist()] != ov[3]:
+        return f'index {xi}: the array is not what numpy selects with the same index'
+    loc = _locate((c['shape'], [float(F(x)) for x in c['affine']]), (ov[0], ov[1]))
+    ids = np.arange(n[0] * n[1] * n[2]).reshape(n)[tuple(key)]
+    if not np.array_equal(loc, ids):
+        return f'index {xi}: a retained voxel is not at the physical coordinate it had'
+    if og[0] != ov[0] or not _close_list(og[1], ov[1]):
+        return f'index {xi}: the geometry got shape {og[0]} affine {og[1]}, the volume {ov[0]} {ov[1]}'
+    return None
+
+
 def nontrivial(c, out):
-    if c['kind'] in ('closest', 'geom_with_array'):
+    if c['kind'] in ('closest', 'geom_with_array', 'get_badtype'):
         return True
     v = _snap_vol(_mk_volume(c))
     outs = [o for op, o in zip(c['ops'], out) if op[0] != 'query']
@@ -1762,7 +2116,7 @@ def nontrivial(c, out):
 
 
 def shrink(c):
-    if 'ops' not in c or c['kind'] in ('closest', 'geom_with_array'):
+    if 'ops' not in c or c['kind'] in ('closest', 'geom_with_array', 'get_badtype'):
         return
     n = len(c['ops'])
     for i in range(n):
